@@ -109,3 +109,44 @@ pub fn dump(index: &Index) -> Result<Dump> {
 
   Ok(Dump { tables, savepoints })
 }
+
+/// Thread-local knobs read by guarded one-line hooks elsewhere in the crate.
+pub mod knobs {
+  use std::cell::Cell;
+
+  thread_local! {
+    static FIRST_INSCRIPTION_HEIGHT: Cell<Option<u32>> = const { Cell::new(None) };
+    static ROLLBACK_BUDGET: Cell<Option<u32>> = const { Cell::new(None) };
+  }
+
+  /// Overrides `Settings::first_inscription_height` on the calling thread.
+  pub fn set_first_inscription_height(height: Option<u32>) {
+    FIRST_INSCRIPTION_HEIGHT.with(|cell| cell.set(height));
+  }
+
+  pub fn first_inscription_height() -> Option<u32> {
+    FIRST_INSCRIPTION_HEIGHT.with(|cell| cell.get())
+  }
+
+  /// Number of savepoint rollbacks `Reorg::handle_reorg` may still perform on
+  /// the calling thread; `None` means unlimited.
+  pub fn set_rollback_budget(budget: Option<u32>) {
+    ROLLBACK_BUDGET.with(|cell| cell.set(budget));
+  }
+
+  pub fn rollback_budget() -> Option<u32> {
+    ROLLBACK_BUDGET.with(|cell| cell.get())
+  }
+
+  /// Consumes one rollback; returns false when the budget is exhausted.
+  pub fn take_rollback() -> bool {
+    ROLLBACK_BUDGET.with(|cell| match cell.get() {
+      None => true,
+      Some(0) => false,
+      Some(n) => {
+        cell.set(Some(n - 1));
+        true
+      }
+    })
+  }
+}
